@@ -165,6 +165,11 @@ def run(ck):
     ck.judge(callers["push_error"] == {HANDLER}, "C09-H", "who-calls:push_error", "only the blanket ErrorHandler pushes", "push_error called from %s" % sorted(callers["push_error"]))
     ck.judge(callers["pop_error"] == {EC + "system_error_next"}, "C09-H", "who-calls:pop_error", "only SYSTem:ERRor[:NEXT]? pops", "pop_error called from %s" % sorted(callers["pop_error"]))
 
+    # ---- C09-R: every fault reaches the handler (hence the queue) at the point where it occurs - before the next unit of
+    # the same message runs - exactly once and unchanged (the report rules of C06-R, evaluated under C09)
+    import c06
+    c06.rule_R(ck, lib, "C09-R")
+
     # ---- C09-T tables
     num = table(lib, "microscpi::error::Error::number")
     txt = table(lib, "microscpi::error::<impl core::convert::From<microscpi::error::Error> for &str>::from")
